@@ -11,7 +11,7 @@ the run uses the tree's variant and names a regression when dropping one repair 
 Independently of the mirror model the property predicate (framebuffer restored; picture = overlay) is
 evaluated in Python on the implementation's own output.
 """
-import os, sys
+import os, re, sys
 import vlib
 
 PROP_FILE = "Props/Properties_C15.v"
@@ -797,6 +797,22 @@ def run_model(mexe, cases, variant=""):
 
 
 PROPOSED = []
+
+
+def source_variants():
+    """repairs whose presence is read from the source text of the tree under test.
+    reqclip = notes/fix_C03_8.diff (C03 F22): rfbSendFramebufferUpdate clips updateRegion to the saved
+    requestedRegion after the cursor redraw; the model then runs send_update_r / pump_rounds_r (CursorReqClip.v)."""
+    out = []
+    try:
+        txt = open(os.path.join(vlib.REPO, "src", "libvncserver", "rfbserver.c"), errors="replace").read()
+        if re.search(r"sraRgnAnd\(\s*updateRegion\s*,\s*requested\s*\)", txt):
+            out.append("reqclip")
+    except OSError:
+        pass
+    return out
+
+
 REPAIRS = ["clip", "empty", "switch", "cache"]      # /repo commits 1a3b6d2, 0775c26, 2b32386, 8f58d2d (were notes/fix_C15_1.._4.diff)
 
 
@@ -827,7 +843,7 @@ def check(ctx):
         return out
     # the tree contains the three repairs (commits 1a3b6d2, 0775c26, 2b32386): the model mirrors them.
     # On disagreement find out (greedy) whether dropping one of them explains it - a regression of that fix.
-    tree = list(REPAIRS)
+    tree = list(REPAIRS) + source_variants()
     mm0 = mism(",".join(tree))
     mismatches, chosen = mm0, tree
     if mismatches and PROPOSED:
@@ -869,7 +885,7 @@ def check(ctx):
              "observed on the implementation after rfbShowCursor",
         samples=[cases[i] for i in (0, len(cases) // 2, len(cases) - 1)],
         input_distribution=hist, cases=len(cases), repairs_found_in_library=variant or "none",
-        repairs_expected_in_library=",".join(REPAIRS),
+        repairs_expected_in_library=",".join(REPAIRS + source_variants()),
         correspondence_mismatches=len(mm0), mismatches_of_closest_variant=len(mismatches),
         oracle_failures=len(oracle_fail), exhaustive=False)
     ctx.assumptions += ["server pixel format is little-endian (serverFormat.bigEndian = FALSE, x86-64 host)",
@@ -905,7 +921,7 @@ def check(ctx):
                       "\nmodel output (repairs mirrored: %s):\n" % (variant or "none") + mo)
     if mm0 and not [1 for (_, (m, f)) in oracle_fail if vlib.match_finding("C15", f) is None]:
         idx, d = mm0[0]
-        variant = ",".join(REPAIRS)
+        variant = ",".join(REPAIRS + source_variants())
 
         def pred2(lines):
             r, co, _ = run_impl(cexe, [lines])
@@ -936,7 +952,7 @@ def replay(ctx, path):
     cexe, mexe, _ = build(ctx)
     r, co, ce = run_impl(cexe, [lines])
     _, m0, _ = run_model(mexe, [lines], "")
-    _, m1, _ = run_model(mexe, [lines], ",".join(REPAIRS))
+    _, m1, _ = run_model(mexe, [lines], ",".join(REPAIRS + source_variants()))
     print("implementation:\n" + co + ce[-800:] + "model (tree: all three repairs):\n" + m1 + "model (before the repairs):\n" + m0)
     cs = vlib.split_cases(co)
     es = oracle_case(lines, cs[0][1] if cs else [])
